@@ -145,7 +145,7 @@ func GenOp(t *rapid.T, opts Options) Op {
 func GenConfig(t *rapid.T) Config {
 	return Config{
 		Set:    rapid.IntRange(0, 3).Draw(t, "set") == 0,
-		Keys:   rapid.SampledFrom([]string{"int", "int", "string", "struct"}).Draw(t, "keys"),
+		Keys:   rapid.SampledFrom([]string{"int", "int", "int0", "string", "struct"}).Draw(t, "keys"),
 		Order:  rapid.SampledFrom(OrderNames).Draw(t, "order"),
 		Flavor: rapid.SampledFrom(Flavors).Draw(t, "flavor"),
 	}
@@ -172,6 +172,8 @@ func RunPlan(opts Options) func(p Plan) (vk.Outcome, error) {
 		switch p.Cfg.Keys {
 		case "int":
 			return runPlan(IntKeys, p, opts)
+		case "int0":
+			return runPlan(IntZeroKeys, p, opts)
 		case "string":
 			return runPlan(StringKeys, p, opts)
 		case "struct":
@@ -212,6 +214,18 @@ func (e *exec[K]) viol(kind, format string, args ...any) error {
 func (m *Model) Resolve(s KeySpec) int {
 	n := len(m.Es)
 	switch s.Mode {
+	case "frac": // the entry at Arg/1000 of the way through the model, plus Delta
+		if n == 0 {
+			return 1 + (s.Arg % 50)
+		}
+		i := s.Arg * n / 1001
+		if i >= n {
+			i = n - 1
+		}
+		if k := m.Es[i].Reps[0] + s.Delta; k >= 1 {
+			return k
+		}
+		return 1
 	case "present":
 		if n == 0 {
 			return 1 + (s.Arg % 50)
@@ -473,7 +487,8 @@ func (e *exec[K]) del(c Coll[K], lk int) error {
 	return err
 }
 
-func fillKeys(o Op) []int {
+// FillKeys lists the logical keys of a Fill op in insertion order.
+func FillKeys(o Op) []int {
 	n := o.Count
 	ks := make([]int, n)
 	stride := o.Stride
@@ -691,7 +706,7 @@ func (e *exec[K]) runOp(o Op) error {
 		if o.Count > e.opts.MaxCount {
 			o.Count = e.opts.MaxCount
 		}
-		for _, k := range fillKeys(o) {
+		for _, k := range FillKeys(o) {
 			if err := e.put(c, k); err != nil {
 				return err
 			}
